@@ -9,7 +9,9 @@
 (***************************************************************************)
 EXTENDS Amount, Registry, SI, Sequences
 
-Rec0   == ndJsonDeserialize(IOEnv.TRACE)
+\* TRACE = "none": the specification is model-checked on its own (exact regime, no recorded trace)
+Rec0   == IF IOEnv.TRACE = "none" THEN <<[ev |-> "Header", be |-> "f64", regime |-> "exact"]>>
+          ELSE ndJsonDeserialize(IOEnv.TRACE)
 Hdr    == Rec0[1]
 BE     == Hdr.be
 REGIME == IF Has(Hdr, "regime") THEN Hdr.regime ELSE "rounded"
@@ -355,39 +357,6 @@ LookupClauses(e) ==
 
 ---------------------------------------------------------------------------
 (* C07 / C09 / C11  observed registry against the declared one             *)
-RECURSIVE LexLess(_, _)
-LexLess(s, t) == IF s = <<>> THEN t # <<>>
-                 ELSE IF t = <<>> THEN FALSE
-                 ELSE IF Head(s) < Head(t) THEN TRUE
-                 ELSE IF Head(s) > Head(t) THEN FALSE
-                 ELSE LexLess(Tail(s), Tail(t))
-
-\* declared scale fraction of the i-th declared unit
-DScaleI(T, i) == DScaleTab[T][i]
-FracLess(f, g) == XLt(XMul(f.n, g.d), XMul(g.n, f.d))     \* denominators positive
-
-(* transcription of analyze(): reference unit first (Decl lists it first), *)
-(* then a STABLE sort by scale; without reference unit a stable sort by    *)
-(* name.  Returns a sequence of indices into DUnits(T).                    *)
-UnitLess(T, i, j) ==
-    IF DKind(T) = "ref" THEN FracLess(DScaleI(T, i), DScaleI(T, j))
-    ELSE LexLess(DUnits(T)[i].name_cp, DUnits(T)[j].name_cp)
-RECURSIVE InsertStable(_, _, _)
-InsertStable(T, sorted, x) ==
-    IF sorted = <<>> THEN <<x>>
-    ELSE IF UnitLess(T, x, Head(sorted)) THEN <<x>> \o sorted
-    ELSE <<Head(sorted)>> \o InsertStable(T, Tail(sorted), x)
-RECURSIVE SortStable(_, _, _)
-SortStable(T, xs, acc) ==
-    IF xs = <<>> THEN acc ELSE SortStable(T, Tail(xs), InsertStable(T, acc, Head(xs)))
-
-ExpectedOrderRaw(T) ==
-    LET n   == Len(DUnits(T))
-        ord == SortStable(T, [i \in 1..n |-> i], <<>>)
-    IN  [k \in 1..n |-> DUnits(T)[ord[k]].id]
-ExpOrderTab == [T \in DOMAIN Decl.types |-> ExpectedOrderRaw(T)]
-ExpectedOrder(T) == ExpOrderTab[T]
-
 PfxPairsConsistent(T) ==
     LET us == OUnits(T)
         P  == {i \in DOMAIN us : us[i].pfx # "-" /\ SIKnown(us[i].pfx)}
